@@ -41,6 +41,9 @@ def check(ctx):
     for rid, fn in (("C05-A", rule_a), ("C05-B", rule_b), ("C05-C", rule_c), ("C05-D", rule_d), ("C05-E", rule_e),
                     ("C05-F", rule_f), ("C05-G", rule_g), ("C05-H", rule_h)):
         ctx.guard(rid, fn)
+    ctx.rule("C05-J", "a row that recorded its junctions on the rules above/below is always drawn: append_columns_with_borders "
+             "has a single normal exit, after the row's lines and the bottom rule were added")
+    ctx.guard("C05-J", rule_j)
     # bars stand at the same positions in every row only if every row walks the columns the same way: the column
     # cursors advance by the cell's colspan on every path (rule shared with C06-A)
     from . import C06
@@ -461,3 +464,31 @@ def rule_g(ctx):
     # column_padding is derived from the (stretched) last border line
     pad = b.calls(lambda cd, t: ends(cd, "BorderHoriz::<T>::to_vertical_lines_above"))
     ctx.check(len(pad) == 1, "C05-G", "padding-rows-from-bottom-border", b.span, b.id, "")
+
+
+def rule_j(ctx):
+    """join_below on the previous rule and join_above on the next rule are bookkeeping for bars that the row's
+    lines are about to draw.  If the function could return after that bookkeeping without drawing the row (an early
+    `return Ok(())` for a zero-height row, say) the rule above would show junctions for bars that do not exist."""
+    F = ctx.facts
+    b = F.one(RTRAIT + "append_columns_with_borders")
+    joins = b.calls(lambda cd, t: callee_method(t) in ("join_below", "join_above"))
+    require(bool(joins), "junction bookkeeping in append_columns_with_borders")
+    oks = []
+    for x in sorted(b.reachable()):
+        for st in b.stmts(x):
+            rv = st.get("rv") or {}
+            if st["k"] == "assign" and st["lhs"]["l"] == 0 and not st["lhs"]["p"] and rv.get("agg") == "adt" and rv.get("variant") == "Ok":
+                oks.append((x, st))
+    after = set()
+    for jbb, _t in joins:
+        after |= b.reach_from(jbb)
+    oks = [o for o in oks if o[0] in after]  # an early exit *before* any junction was recorded is harmless
+    ctx.check(len(oks) == 1, "C05-J", "append_columns:single-normal-exit", oks[1][1]["span"] if len(oks) > 1 else b.span, b.id,
+              "%d places return Ok(()): a row must not be abandoned after its junctions were recorded" % len(oks))
+    if len(oks) == 1:
+        # the bottom rule (add_line(Line(next_border))) lies on the way to it when borders are drawn: the exit is
+        # not reachable from a junction call without passing the row loop's exit
+        adds = b.calls(lambda cd, t: ends(cd, "SubRenderer::<D>::add_line"))
+        ctx.check(bool(adds) and all(any(oks[0][0] in b.reach_from(abb) for abb, _t in adds) for _ in [0]), "C05-J",
+                  "append_columns:exit-after-the-row-was-added", b.span, b.id, "")
